@@ -34,6 +34,10 @@ func main() {
 		repo = "/repo"
 	}
 	gen.LoadDictionary(repo)
+	// the hash-collision pairs are enumerated (or read from .build/) before any monitored call is made and before
+	// child processes are started, so that the enumeration never runs next to a CPU-budgeted call
+	gen.CollidingPairs("")
+	gen.CollidingPairs("v")
 	dir := os.Getenv("VERIF_DIR")
 	if dir == "" {
 		dir = "/verif"
